@@ -244,6 +244,11 @@ class Check:
         os.makedirs(self.work, exist_ok=True)
         os.environ['VERIF_TMPDIR'] = os.path.join(self.work, 'tmp')
         os.makedirs(os.path.join(ROOT, 'evidence', 'replays'), exist_ok=True)
+        # replays are per-run artefacts: drop those of earlier runs of this property (a clean run leaves none)
+        for f in os.listdir(os.path.join(ROOT, 'evidence', 'replays')):
+            if f.startswith(pid + '-') and f.endswith('.json'):
+                try: os.remove(os.path.join(ROOT, 'evidence', 'replays', f))
+                except OSError: pass
 
     def log(self, *a):
         print('[%s %6.1fs]' % (self.pid, time.time() - self.t0), *a, flush=True)
